@@ -89,7 +89,7 @@ class WebsocketFrame:
         self.payload_length = byte & 0b01111111
 
     def build(self) -> bytes:
-        if self.payload_length is None and self.data:
+        if self.payload_length is None and self.data is not None:
             self.payload_length = len(self.data)
         raw = io.BytesIO()
         raw.write(
@@ -121,7 +121,7 @@ class WebsocketFrame:
         elif self.payload_length < 1 << 64:
             raw.write(
                 struct.pack(
-                    '!BHQ',
+                    '!BQ',
                     (1 << 7 if self.masked else 0) | 127,
                     self.payload_length,
                 ),
@@ -131,10 +131,13 @@ class WebsocketFrame:
                 f'Invalid payload_length { self.payload_length},'
                 f'maximum allowed { 1 << 64}',
             )
-        if self.masked and self.data:
+        if self.masked:
+            # Masking key is always present on a masked frame,
+            # even when payload is empty.
             mask = secrets.token_bytes(4) if self.mask is None else self.mask
             raw.write(mask)
-            raw.write(self.apply_mask(self.data, mask))
+            if self.data:
+                raw.write(self.apply_mask(self.data, mask))
         elif self.data:
             raw.write(self.data)
         return raw.getvalue()
@@ -160,7 +163,7 @@ class WebsocketFrame:
             self.mask = raw[cur: cur + 4]
             cur += 4
 
-        assert self.payload_length
+        assert self.payload_length is not None
         self.data = raw[cur: cur + self.payload_length]
         cur += self.payload_length
         if self.masked:
